@@ -20,8 +20,13 @@ pub enum Shape {
     Append,
     /// `Box<T>`
     Boxed,
+    /// a user-defined `#[derive(Encode, Decode)] struct { tag: u8, val: T, opt: Option<T>, tail: u16 }`
+    /// (what a pallet storage struct looks like); vals = [val] or [val, opt]
+    Rec,
+    /// a user-defined derived enum `{ Empty = 0, One(T) = 3, Two { a: T, b: T } = 7 }`; vals.len() picks the variant
+    Sum,
 }
-pub const SHAPES: [Shape; 10] = [
+pub const SHAPES: [Shape; 12] = [
     Shape::Bare,
     Shape::Arr1,
     Shape::Arr3,
@@ -32,6 +37,8 @@ pub const SHAPES: [Shape; 10] = [
     Shape::Tup3,
     Shape::Append,
     Shape::Boxed,
+    Shape::Rec,
+    Shape::Sum,
 ];
 
 #[derive(Clone, Copy, Debug, PartialEq, Eq, PartialOrd, Ord, Hash)]
